@@ -63,6 +63,7 @@ type Finding struct {
 	Decisions []int64           `json:"decisions"`
 	Stack     []string          `json:"stack,omitempty"`
 	Tainted   bool              `json:"tainted,omitempty"` // an over-approximating stub was used on the path
+	MapOrder  bool              `json:"map_order,omitempty"` // the path depends on a non-canonical map iteration order chosen by the engine
 	EngineOnly bool             `json:"engine_only,omitempty"`
 }
 
@@ -164,6 +165,7 @@ type worker struct {
 	roLabel    string
 	allocLimit int64
 	permute    bool
+	permUsed   bool
 	noPanicDepth int
 
 	// local stats merged at the end
@@ -408,6 +410,7 @@ func (w *worker) resetPath(prefix []int64) {
 	w.roCells, w.roMaps = nil, nil
 	w.allocLimit = 0
 	w.permute = false
+	w.permUsed = false
 	w.noPanicDepth = 0
 	w.ptrIDs = nil
 	w.cmodel = map[*Term]uint64{}
@@ -1020,7 +1023,7 @@ func (w *worker) findingUnder(extra *Term, label, kind, msg string, fr *frame) {
 			return
 		}
 	}
-	f := &Finding{Harness: w.ex.cfg.Harness, Label: label, Kind: kind, Msg: msg, Values: vals, Decisions: append([]int64(nil), w.trace...), Tainted: w.tainted}
+	f := &Finding{Harness: w.ex.cfg.Harness, Label: label, Kind: kind, Msg: msg, Values: vals, Decisions: append([]int64(nil), w.trace...), Tainted: w.tainted, MapOrder: w.permUsed}
 	if fr != nil {
 		f.Stack = w.stack(fr)
 	}
@@ -1108,6 +1111,7 @@ func (w *worker) orderMapEntries(es []omapEntry) []omapEntry {
 	if !w.permute || len(es) < 2 {
 		return es
 	}
+	w.permUsed = true
 	// choose a permutation: n-way choice for the first, n-1 for the second, ...
 	out := make([]omapEntry, 0, len(es))
 	rest := append([]omapEntry(nil), es...)
